@@ -57,7 +57,7 @@ func init() {
 		spec := &mc.Spec{
 			Level: "exploration",
 			Rule: "Reset: a real program (fsgen) creates every subset of ≤ maxKinds residue kinds out of 12 (deep path, path longer than PATH_MAX, mode-000 directory with content, hidden names, dangling / host / self symlinks, FIFO, socket, hard links, 2000 entries, file held open by a surviving process, read-only directory, weird names) in every tmpfs mount of the container (work dir, /tmp, a tmpfs nested in the work dir, a tmpfs with size options, two tmpfs whose names extend the names of earlier ones), with and without credential switching, in the histories run→Reset and run→run→Reset, the last run ending by itself or refused by the caller's sync callback after the program already ran (sync after exec); " +
-				"afterwards every tmpfs mount must be empty as seen from the host through /proc/<init>/root. memfd: sizes {0,1,4095,4096,4097,65536,1 MiB+1} × byte patterns × reader behaviours (whole, one byte at a time, failing midway); content, offset and seals checked; every modification attempt by the holder of the descriptor and by a program exec'ed from the sealed file (on its own image and on a second sealed descriptor) must leave the bytes unchanged. " +
+				"afterwards every tmpfs mount must be empty as seen from the host through /proc/<init>/root. memfd: sizes {0,1,4095,4096,4097,65536,1 MiB+1} × byte patterns × reader behaviours (whole, one byte at a time, 7 at a time, failing midway, and readers with a size or position of their own: advanced bytes.Reader, partly consumed SectionReader window, file at an offset, bytes.Buffer, LimitedReader); content, offset and seals checked; every modification attempt by the holder of the descriptor and by a program exec'ed from the sealed file (on its own image and on a second sealed descriptor) must leave the bytes unchanged. " +
 				"non-trivial: at least one residue kind / size > 0; distinct = (kinds, credential mode, history, listing) or (size, pattern, reader, attack results)",
 			Bound:       map[string]any{"max_kinds": maxKinds, "tmpfs_mounts": c13tmpfs},
 			Assumptions: []string{"writable bind mounts are the caller's directories and are not expected to be emptied", "mode and mtime of a tmpfs mount root are not entries"},
@@ -316,12 +316,48 @@ func c13memfd(x *mc.X) {
 		sizes := []int{0, 1, 4095, 4096, 4097, 65536, 1<<20 + 1}
 		size := sizes[x.Choose(len(sizes), "size")]
 		pat := x.Pick("pattern", "zero", "ff", "counter")
-		rd := x.Pick("reader", "whole", "one-byte-at-a-time", "7-bytes-at-a-time")
+		rd := x.Pick("reader", "whole", "one-byte-at-a-time", "7-bytes-at-a-time", "bytes.Reader-advanced", "SectionReader-window", "file-at-offset", "bytes.Buffer", "LimitedReader")
 		if x.Dry() {
 			return
 		}
 		data := c13pattern(pat, size)
 		var r io.Reader = bytes.NewReader(data)
+		// readers that know a size or a position of their own: the supplied bytes are what the reader still has to give
+		junk := []byte("JUNK-BEFORE-THE-PAYLOAD")
+		switch rd {
+		case "bytes.Reader-advanced":
+			br := bytes.NewReader(append(append([]byte{}, junk...), data...))
+			br.Seek(int64(len(junk)), io.SeekStart)
+			r = br
+		case "SectionReader-window":
+			whole := append(append(append([]byte{}, junk...), data...), junk...)
+			sr := io.NewSectionReader(bytes.NewReader(whole), int64(len(junk)), int64(len(data)))
+			if size > 2 {
+				// partly consumed, and the payload is what is left
+				head := make([]byte, 2)
+				io.ReadFull(sr, head)
+				data = data[2:]
+			}
+			r = sr
+		case "file-at-offset":
+			tf, err := os.CreateTemp(tmpRoot(), "c13src")
+			if err != nil {
+				x.Failf("C13/harness", "%v", err)
+				return
+			}
+			defer os.Remove(tf.Name())
+			defer tf.Close()
+			tf.Write(junk)
+			tf.Write(data)
+			tf.Seek(int64(len(junk)), io.SeekStart)
+			r = tf
+		case "bytes.Buffer":
+			bb := bytes.NewBuffer(append(append([]byte{}, junk...), data...))
+			bb.Next(len(junk))
+			r = bb
+		case "LimitedReader":
+			r = io.LimitReader(bytes.NewReader(append(append([]byte{}, data...), junk...)), int64(len(data)))
+		}
 		switch rd {
 		case "one-byte-at-a-time":
 			if size > 70000 {
